@@ -21,6 +21,43 @@ pub enum Profile {
     ProdEu,
 }
 
+/// A hand-written `ConfigProfile` (no derive): names are free-form, dots included (`prod.eu` -> `prod.eu.yml`).
+#[derive(Debug, Clone, Copy, PartialEq, Eq)]
+pub enum Manual {
+    Prod,
+    ProdEu,
+    V12,
+}
+impl AsRef<str> for Manual {
+    fn as_ref(&self) -> &str {
+        match self {
+            Manual::Prod => "prod",
+            Manual::ProdEu => "prod.eu",
+            Manual::V12 => "v1.2",
+        }
+    }
+}
+impl std::str::FromStr for Manual {
+    type Err = UnknownManual;
+    fn from_str(s: &str) -> Result<Self, Self::Err> {
+        match s {
+            "prod" => Ok(Manual::Prod),
+            "prod.eu" => Ok(Manual::ProdEu),
+            "v1.2" => Ok(Manual::V12),
+            _ => Err(UnknownManual),
+        }
+    }
+}
+#[derive(Debug)]
+pub struct UnknownManual;
+impl std::fmt::Display for UnknownManual {
+    fn fmt(&self, f: &mut std::fmt::Formatter<'_>) -> std::fmt::Result {
+        write!(f, "unknown profile")
+    }
+}
+impl std::error::Error for UnknownManual {}
+impl ConfigProfile for Manual {}
+
 #[derive(serde::Deserialize)]
 struct S1 {
     server: Server,
@@ -194,26 +231,49 @@ fn handle(root: &Path, req: &Json) -> Json {
     if std::env::set_current_dir(&cwd).is_err() {
         return json!({"r": "io-error"});
     }
-    let mut loader = ConfigLoader::<Profile>::new();
-    match req.get("explicit") {
-        None | Some(Json::Null) => {}
-        Some(Json::String(p)) => match p.as_str() {
-            "dev" => loader = loader.profile(Profile::Development),
-            "prod" => loader = loader.profile(Profile::Production),
-            "local_development" => loader = loader.profile(Profile::LocalDevelopment),
-            "staging2" => loader = loader.profile(Profile::Staging),
-            "prodEU" => loader = loader.profile(Profile::ProdEu),
+    let manual = req.get("manual").and_then(|m| m.as_bool()).unwrap_or(false);
+    let out = if manual {
+        let mut loader = ConfigLoader::<Manual>::new();
+        match req.get("explicit") {
+            None | Some(Json::Null) => {}
+            Some(Json::String(p)) => match p.as_str() {
+                "prod" => loader = loader.profile(Manual::Prod),
+                "prod.eu" => loader = loader.profile(Manual::ProdEu),
+                "v1.2" => loader = loader.profile(Manual::V12),
+                _ => return bad(),
+            },
             _ => return bad(),
-        },
-        _ => return bad(),
-    }
-    if let Some(d) = dir_name {
-        loader = if absolute { loader.configuration_dir(abs_base.join(d)) } else { loader.configuration_dir(d) };
-    }
-    let out = match schema {
-        "S1" => loader.load::<S1>().map(s1_json),
-        "S2" => loader.load::<S2>().map(s2_json),
-        _ => return bad(),
+        }
+        if let Some(d) = dir_name {
+            loader = if absolute { loader.configuration_dir(abs_base.join(d)) } else { loader.configuration_dir(d) };
+        }
+        match schema {
+            "S1" => loader.load::<S1>().map(s1_json),
+            "S2" => loader.load::<S2>().map(s2_json),
+            _ => return bad(),
+        }
+    } else {
+        let mut loader = ConfigLoader::<Profile>::new();
+        match req.get("explicit") {
+            None | Some(Json::Null) => {}
+            Some(Json::String(p)) => match p.as_str() {
+                "dev" => loader = loader.profile(Profile::Development),
+                "prod" => loader = loader.profile(Profile::Production),
+                "local_development" => loader = loader.profile(Profile::LocalDevelopment),
+                "staging2" => loader = loader.profile(Profile::Staging),
+                "prodEU" => loader = loader.profile(Profile::ProdEu),
+                _ => return bad(),
+            },
+            _ => return bad(),
+        }
+        if let Some(d) = dir_name {
+            loader = if absolute { loader.configuration_dir(abs_base.join(d)) } else { loader.configuration_dir(d) };
+        }
+        match schema {
+            "S1" => loader.load::<S1>().map(s1_json),
+            "S2" => loader.load::<S2>().map(s2_json),
+            _ => return bad(),
+        }
     };
     let res = match out {
         Ok(v) => json!({"r": "ok", "v": v}),
